@@ -33,34 +33,36 @@ OutClass(r) ==
     [] OTHER -> "other"
 Returned(r) == r.ret /\ ~r.runaway /\ r.cls # "hang"
 
+\* (operator arguments, not LET: TLC re-evaluates a LET-bound value at every use)
 RecClause(r) == Clause(G(r), r.opens, OutClass(r), Returned(r))
 RecOk(r) == RecClause(r) = ""
-Sig(r) == [fam |-> "loader", clause |-> RecClause(r), detail |-> Detail(G(r), r.opens, OutClass(r), Returned(r))]
+SigOf(r, g, oc) == [fam |-> "loader", clause |-> Clause(g, r.opens, oc, Returned(r)), detail |-> Detail(g, r.opens, oc, Returned(r))]
+Sig(r) == SigOf(r, G(r), OutClass(r))
 
-\* drift: the real run differs from what the implementation-shaped model predicts (diagnostic)
-Drift(r) == LET m == ImplRun(G(r)) IN
+\* drift: the real run differs from what the implementation-shaped model predicts (diagnostic;
+\* computed for the plain pass only - the FormatFS pass of a case takes the same path)
+DriftOf(m, r) ==
   \/ m.out # OutClass(r)
   \/ Len(m.opens) # Len(r.opens)
   \/ \E j \in 1..Len(m.opens) : m.opens[j].n # r.opens[j].n \/ m.opens[j].ok # r.opens[j].ok
+Drift(r) == r.fsk = "plain" /\ DriftOf(ImplRun(G(r)), r)
 
-(* ---- record-walk skeleton (as in spec/lib2/Trace_HTMLEscape.tla) + a drift counter ---- *)
-VARIABLES l, nbad, ndrift
+(* ---- record walk: one state per record (as the skeleton of spec/lib2/Trace_HTMLEscape.tla), but
+   the indexes of the first 400 bad / 50 drifting records are carried in the state (bounded, so not
+   quadratic) instead of being recomputed at the end: a record is judged exactly once. ---- *)
+VARIABLES l, nbad, ndrift, badk, driftk
 Obs == ndJsonDeserialize("obs.ndjson")
-Init == l = 1 /\ nbad = 0 /\ ndrift = 0
-Next == l <= Len(Obs) /\ l' = l + 1 /\ nbad' = nbad + (IF RecOk(Obs[l]) THEN 0 ELSE 1)
-        /\ ndrift' = ndrift + (IF Drift(Obs[l]) THEN 1 ELSE 0)
-\* (1..(l - 1), not 1..Len(Obs): a state-level definition is not evaluated eagerly at start-up)
-BadIdx == SelectSeq([i \in 1..(l - 1) |-> i], LAMBDA i : ~RecOk(Obs[i]))
-DriftIdx == SelectSeq([i \in 1..(l - 1) |-> i], LAMBDA i : Drift(Obs[i]))
+Init == l = 1 /\ nbad = 0 /\ ndrift = 0 /\ badk = <<>> /\ driftk = <<>>
+Next == /\ l <= Len(Obs) /\ l' = l + 1
+        /\ IF RecOk(Obs[l]) THEN UNCHANGED <<nbad, badk>>
+           ELSE nbad' = nbad + 1 /\ badk' = IF Len(badk) < 400 THEN Append(badk, l) ELSE badk
+        /\ IF Drift(Obs[l]) THEN ndrift' = ndrift + 1 /\ driftk' = IF Len(driftk) < 50 THEN Append(driftk, l) ELSE driftk
+           ELSE UNCHANGED <<ndrift, driftk>>
 Done == l = Len(Obs) + 1 =>
           /\ ndJsonSerialize("bad.ndjson",
-               IF nbad = 0 THEN <<>>
-               ELSE [j \in 1..(IF Len(BadIdx) < 400 THEN Len(BadIdx) ELSE 400) |->
-                       [k |-> BadIdx[j], id |-> Obs[BadIdx[j]].id, sig |-> Sig(Obs[BadIdx[j]]), nbad |-> nbad]])
+               [j \in 1..Len(badk) |-> [k |-> badk[j], id |-> Obs[badk[j]].id, sig |-> Sig(Obs[badk[j]]), nbad |-> nbad]])
           /\ ndJsonSerialize("drift.ndjson",
-               IF ndrift = 0 THEN <<>>
-               ELSE [j \in 1..(IF Len(DriftIdx) < 50 THEN Len(DriftIdx) ELSE 50) |->
-                       [k |-> DriftIdx[j], id |-> Obs[DriftIdx[j]].id, fsk |-> Obs[DriftIdx[j]].fsk,
-                        model |-> ImplRun(G(Obs[DriftIdx[j]])).out, real |-> OutClass(Obs[DriftIdx[j]]), ndrift |-> ndrift]])
+               [j \in 1..Len(driftk) |-> [k |-> driftk[j], id |-> Obs[driftk[j]].id, fsk |-> Obs[driftk[j]].fsk,
+                                          model |-> ImplRun(G(Obs[driftk[j]])).out, real |-> OutClass(Obs[driftk[j]]), ndrift |-> ndrift]])
 Consumed == TLCGet("stats").diameter - 1 = Len(Obs)
 =============================================================================
